@@ -15,36 +15,57 @@ theorem contains_true_of_mem (c : Char) (xs : Str) (h : c ∈ xs) : xs.contains 
   simp [List.contains_eq_mem, h]
 
 /-- password as `parse_hostport` reports it: an empty one is `None` -/
-def pwResult (pw : Option Str) : Option Str :=
-  match pw with
-  | some p => if p.isEmpty then none else some p
-  | none => none
+def pwResult (pw : Option Str) : Option Str := normPassword pw
+
+/-- the user-info split gives back the parts a specification was built from: the last `@`
+ends the user info (the host has none), the first `:` ends the user name (it has none) -/
+theorem splitUserinfo_spell (user pw : Option Str) (host : Str) (hat : '@' ∉ host)
+    (hu : ∀ u, user = some u → ':' ∉ u) (hnone : user = none → pw = none) :
+    splitUserinfo (spellRemote user pw host) = (user, pw, host) := by
+  cases user with
+  | none =>
+    have := hnone rfl; subst this
+    simp [splitUserinfo, spellRemote, hat]
+  | some u =>
+    have huc : ':' ∉ u := hu u rfl
+    cases pw with
+    | none => simp [splitUserinfo, spellRemote, rsplit1_app '@' u host hat, huc]
+    | some p =>
+      have hr : rsplit1 '@' (u ++ ':' :: (p ++ '@' :: host)) = (u ++ ':' :: p, host) := by
+        have := rsplit1_app '@' (u ++ ':' :: p) host hat
+        simpa [List.append_assoc] using this
+      have hsp := split1_app ':' u p huc
+      simp [splitUserinfo, spellRemote, hr, hsp]
+
+theorem spellRemote_isEmpty (user pw : Option Str) (host : Str) (hhost : host ≠ []) :
+    (spellRemote user pw host).isEmpty = false := by
+  cases user with
+  | none => cases host with
+    | nil => exact absurd rfl hhost
+    | cons _ _ => rfl
+  | some u => cases pw <;> cases u <;> rfl
+
+/-- for *any* host part without `@` (name, address, `host:port`, `[v6]:port`, garbage): user
+and password come back as built, port / host / failure are those of the host part alone -/
+theorem parseHostport_userinfo (user pw : Option Str) (host : Str)
+    (hhost : host ≠ []) (hat : '@' ∉ host)
+    (hu : ∀ u, user = some u → ':' ∉ u) (hnone : user = none → pw = none) :
+    parseHostport (some (spellRemote user pw host)) =
+      (match hostPart host with
+       | .error e => .error e
+       | .ok (port, h) => .ok ⟨user, pwResult pw, port, h⟩) := by
+  simp only [parseHostport, spellRemote_isEmpty user pw host hhost, Bool.false_eq_true, ↓reduceIte,
+    splitUserinfo_spell user pw host hat hu hnone, pwResult]
+  cases hostPart host with
+  | error e => rfl
+  | ok v => cases v; rfl
 
 theorem parseHostport_remote (user pw : Option Str) (host : Str)
     (hhost : host ≠ []) (hat : '@' ∉ host) (hcolon : ':' ∉ host)
     (hu : ∀ u, user = some u → ':' ∉ u)
     (hnone : user = none → pw = none) :
     parseHostport (some (spellRemote user pw host)) = .ok ⟨user, pwResult pw, none, some host⟩ := by
-  cases user with
-  | none =>
-    have := hnone rfl; subst this
-    have hne : host.isEmpty = false := by cases host with
-      | nil => exact absurd rfl hhost
-      | cons _ _ => rfl
-    simp [parseHostport, spellRemote, hne, hat, hcolon, pwResult]
-  | some u =>
-    have huc : ':' ∉ u := hu u rfl
-    cases pw with
-    | none =>
-      have hs : (u ++ '@' :: host).isEmpty = false := by cases u <;> rfl
-      simp [parseHostport, spellRemote, hs, rsplit1_app '@' u host hat, huc, hcolon, pwResult]
-    | some p =>
-      have hs : (u ++ ':' :: (p ++ '@' :: host)).isEmpty = false := by cases u <;> rfl
-      have hr : rsplit1 '@' (u ++ ':' :: (p ++ '@' :: host)) = (u ++ ':' :: p, host) := by
-        have := rsplit1_app '@' (u ++ ':' :: p) host hat
-        simpa [List.append_assoc] using this
-      have hsp := split1_app ':' u p huc
-      cases hp : p.isEmpty <;>
-        simp [parseHostport, spellRemote, hs, hr, hsp, hcolon, pwResult, hp]
+  rw [parseHostport_userinfo user pw host hhost hat hu hnone]
+  simp [hostPart, hcolon]
 
 end Sshuttle.ArgsSpec
